@@ -8,8 +8,8 @@ package props
 
 import (
 	"fmt"
-	"os"
 	"net"
+	"os"
 	"path/filepath"
 	"strings"
 	"testing"
